@@ -163,6 +163,7 @@ func ChunkStream(ctx context.Context, c Chunker, ws WriteStore, n int) (Index, e
 	for i := 0; i < n; i++ {
 		g.Go(func() error {
 			for c := range in {
+				verifYield("chunkstream.job")
 				// Create a chunk object, needed to calculate the checksum
 				chunk := NewChunk(c.b)
 
@@ -191,6 +192,7 @@ loop:
 		if len(b) == 0 {
 			break
 		}
+		verifYield("chunkstream.feed")
 
 		// Send it off for compression and storage
 		select {
